@@ -11,7 +11,7 @@ Script keys (origin.h2_script):
   order           'fifo' | 'reverse' | 'interleave' (DATA round-robin across held streams)
   data_chunk      size of response DATA frames
   after_end       'ping' | 'wu': a PING / one byte of connection credit follows each response 10 ms later
-  actions         [{'when': ('head'|'end', n), 'do': 'goaway'|'rst'|'settings'|'ping'|'ping-gate'|'close',
+  actions         [{'when': ('head'|'end', n), 'do': 'goaway'|'rst'|'settings'|'ping'|'ping-gate'|'early'|'close',
                     ...args}]  n = ordinal of the request on this connection; optional 'conn': k restricts
                     the action to the k-th connection the origin accepted
 """
@@ -238,6 +238,7 @@ class H2Server:
         self.mut_close = False
         self.gated = False
         self.ping_gates = 0
+        self.no_credit: set[int] = set()
 
     # -------------------------------------------------------------------------
     def goaway_consumed(self) -> bool:
@@ -458,6 +459,8 @@ class H2Server:
         pol = self.script.get("win", "auto")
         if n <= 0:
             return
+        if sid in self.no_credit:
+            return  # answered early: the server is not interested in the rest of the body
         if self.goaway_last is not None and sid > self.goaway_last:
             # a stream the GOAWAY refused: the server ignores what still arrives on it (RFC 9113 6.8) and, about to go
             # away, returns no credit for it. (The h2 package on the client side rejects every frame that follows a
@@ -585,6 +588,20 @@ class H2Server:
                     self.deferred_settings.append(s)
                 else:
                     self._send_settings(s)
+            elif do == "early":
+                # the server answers at once, before the request body has arrived (RFC 9113 8.1: a complete response may be
+                # sent before the request is complete, optionally followed by RST_STREAM(NO_ERROR)); no credit for the rest
+                self._send_head(req, Resp(act.get("status", 413), b"Early", [(b"X-Early", b"1")], act.get("body", b"too large")))
+                self._pump()
+                req.dropped = True
+                self.no_credit.add(req.stream_id)
+                if act.get("rst"):
+                    try:
+                        self.conn.reset_stream(req.stream_id, 0)
+                        self.ledger.server_reset(req.stream_id)
+                    except h2.exceptions.ProtocolError:
+                        pass
+                    self._flush()
             elif do == "ping-gate":
                 # liveness / bandwidth probing as gRPC servers do it: a PING, and nothing more until it is acknowledged
                 self._flush()
